@@ -126,6 +126,7 @@ def bounds(tier):
     out["MaxLikeInf/MaxLikeFull (jittered series with >= 3 finite-zone fractures)"] = t["ml"]
     out["MaxLikeFull on zero-scatter / no-run-out starts (slow: the simplex never converges), (series, transformation)"] = t["ml_degenerate"]
     out["histories B, A, B in one fresh interpreter (result of B must not change)"] = HISTORIES[:2 if tier == "quick" else len(HISTORIES)]
+    out["histories on one kept FatigueData object (analyzers in sequence, transition moved in between; each result must equal that of fresh objects)"] = SHARED[:SHARED_QUICK if tier == "quick" else len(SHARED)]
     out["extra transformation"] = "duplabels: same rows, non-unique index labels"
     out["tolerances"] = {"Elementary/Probit rtol": RTOL_EXACT, "MaxLike parameter rtol": RTOL_ML, "MaxLike |dlogL|": DLL}
     return out
@@ -233,6 +234,7 @@ def shards(tier):
     t = _tier(tier)
     out = [("mldeg", tier, [s], xf) for s, xf in t["ml_degenerate"]]
     out += [("history", tier, [h], None) for h in HISTORIES[:2 if tier == "quick" else len(HISTORIES)]]
+    out += [("shared", tier, [h], None) for h in SHARED[:SHARED_QUICK if tier == "quick" else len(SHARED)]]
     for s in sorted(_ml_series(t), key=lambda s: len(series_rows(s))):
         out.append(("ml", tier, [s], "MaxLikeFull"))
         out.append(("ml", tier, [s], "MaxLikeInf"))
@@ -261,6 +263,83 @@ _A2 = {"k": 3.0, "levels": [250.0, 300.0, 350.0, 400.0], "reps": 1, "jit": 5, "r
 HISTORIES = [{"an": "MaxLikeFull", "B": _B1, "A": _A1}, {"an": "MaxLikeInf", "B": _B1, "A": _A1},
              {"an": "MaxLikeFull", "B": _B2, "A": _A2}, {"an": "MaxLikeFull", "B": _B1, "A": _A2},
              {"an": "Probit", "B": _B1, "A": _A1}, {"an": "Elementary", "B": _B2, "A": _A1}]
+
+
+# Histories on ONE kept FatigueData object (the way the documentation uses the module: fd = df.fatigue_data; several
+# analyzers on fd).  Steps: an analyzer name = construct it on the kept fd and analyse; ["again", i] = call analyze()
+# once more on the analyzer object built in step i; ["transition", x] = fd.set_finite_infinite_transition(x).
+# Oracle (differential, no expected values): every result equals, bit for bit, what the same analyzer returns for a
+# fresh frame / fresh accessor brought to the same transition, and a result Series handed out earlier never changes.
+_S_EXACT = {"k": 5.0, "levels": [250.0, 300.0, 350.0], "reps": 2, "jit": None, "ro": "mixed2"}
+SHARED = [
+    {"series": _B1, "steps": ["Elementary", "Probit", "Elementary"]},
+    {"series": _B1, "steps": ["Elementary", "MaxLikeInf", "Elementary", "Probit"]},
+    {"series": _S_EXACT, "steps": ["Probit", "Elementary", "MaxLikeInf", "Elementary"]},
+    {"series": _B1, "steps": ["MaxLikeInf", ["transition", 260.0], ["again", 0], "Elementary"]},
+    {"series": _B1, "steps": ["Elementary", "Probit", ["transition", 260.0], ["again", 0], ["again", 1]]},
+    {"series": _B2, "steps": ["Probit", ["transition", 320.0], ["again", 0], "MaxLikeInf", ["transition", 230.0], ["again", 0], ["again", 3]]},
+    {"series": _B1, "steps": ["MaxLikeFull", ["transition", 260.0], ["again", 0]]},
+    {"series": _B2, "steps": ["Elementary", "MaxLikeFull", "Elementary"]},
+]
+SHARED_QUICK = 8
+
+
+def _wc_dict(wc):
+    return {p: float(wc[p]) for p in PARAMS}
+
+
+def _same_wc(a, b):
+    return all(a[p] == b[p] or (math.isnan(a[p]) and math.isnan(b[p])) for p in PARAMS)
+
+
+def shared_case(h):
+    """-> list of (key, detail)"""
+    import pylife.materialdata.woehler as W
+    rows = series_rows(h["series"])
+    viol = []
+    with warnings.catch_warnings():
+        warnings.simplefilter("ignore")
+        old = np.seterr(all="ignore")
+        try:
+            fd = _frame(rows).fatigue_data
+            transition = None
+            objs, handed_out = {}, []
+            for i, st in enumerate(h["steps"]):
+                if isinstance(st, (list, tuple)) and st[0] == "transition":
+                    transition = float(st[1])
+                    fd.set_finite_infinite_transition(transition)
+                    continue
+                if isinstance(st, (list, tuple)):
+                    an, obj = objs[st[1]]
+                else:
+                    an, obj = st, getattr(W, st)(fd)
+                    objs[i] = (an, obj)
+                try:
+                    res = obj.analyze()
+                except Exception as e:          # noqa: BLE001
+                    viol.append(("C18/%s/kept-fatigue-data/raises-%s" % (an, type(e).__name__), {"step": i, "msg": str(e)[:200]}))
+                    break
+                got = _wc_dict(res)
+                fresh_fd = _frame(rows).fatigue_data
+                if transition is not None:
+                    fresh_fd.set_finite_infinite_transition(transition)
+                want = _wc_dict(getattr(W, an)(fresh_fd).analyze())
+                if not _same_wc(got, want):
+                    viol.append(("C18/%s/kept-fatigue-data/differs-from-fresh-objects" % an,
+                                 {"step": i, "steps": h["steps"], "kept": got, "fresh": want, "transition": transition}))
+                for j, an_j, series_j, snap in handed_out:
+                    if not _same_wc(_wc_dict(series_j), snap):
+                        viol.append(("C18/%s/result-handed-out-earlier-changed" % an_j,
+                                     {"handed_out_in_step": j, "changed_during_step": i, "was": snap, "is": _wc_dict(series_j)}))
+                handed_out.append((i, an, res, got))
+        finally:
+            np.seterr(**old)
+    seen, out = set(), []
+    for k, d in viol:
+        if k not in seen:
+            seen.add(k)
+            out.append((k, d))
+    return out
 
 
 def history_case(h):
@@ -645,6 +724,16 @@ def run_shard(shard):
                 acc.violation(key, {"history": h}, detail)
             acc.count("cases/%s/history" % h["an"])
         return acc
+    if kind == "shared":
+        for h in block:
+            acc.cases += 1
+            acc.evaluations += 2 * sum(1 for st in h["steps"] if not (isinstance(st, (list, tuple)) and st[0] == "transition"))
+            acc.nontrivial += 1
+            for key, detail in shared_case(h):
+                acc.violation(key, {"shared": h}, detail)
+            acc.outcome(["shared", h["steps"]])
+            acc.count("cases/kept-fatigue-data-history")
+        return acc
     for s in block:
         n = len(series_rows(s))
         if kind == "fast":
@@ -664,5 +753,7 @@ def run_shard(shard):
 def replay(case):
     if "history" in case:
         return history_case(case["history"])
+    if "shared" in case:
+        return shared_case(case["shared"])
     viol, _, _ = run_case(case["an"], case["series"], case["xf"])
     return viol
